@@ -44,12 +44,12 @@ MAX_REPORTS_PER_LABEL = 5       # replays saved / violations listed per label an
 
 SIZES = {
     "quick": dict(mc=["MC_MxRegistry_quick.cfg", "MC_MxRegistry_quick_deep.cfg"],
-                  mbt="MBT_MxRegistry_quick.cfg", mbt_limit=2500,
+                  mbt="MBT_MxRegistry_quick.cfg", mbt_limit=1600,
                   traces=240, nops=25, mc_timeout=600),
     "thorough": dict(mc=["MC_MxRegistry_thorough.cfg", "MC_MxRegistry_thorough_link.cfg",
                          "MC_MxRegistry_thorough_deep.cfg"],
-                     mbt="MBT_MxRegistry_thorough.cfg", mbt_limit=40000,
-                     traces=4000, nops=40, mc_timeout=3000),
+                     mbt="MBT_MxRegistry_thorough.cfg", mbt_limit=25000,
+                     traces=3000, nops=40, mc_timeout=3000),
 }
 
 ASSUMPTIONS = [
